@@ -99,53 +99,136 @@ func mwProps(b *mwBase) []string {
 	return []string{"C17"}
 }
 
-// chanContents: the values a returned reply channel carries, in order.
-// Recognised idioms: newClosedBufCh(items...) / newBufCh(items...); and
-// make(chan T, n) + sends + (deferred) close in the same function.
-func chanContents(fn *ssa.Function, v ssa.Value) ([]ssa.Value, bool) {
+// chanElem: one value a reply channel carries.
+type chanElem struct {
+	val    ssa.Value
+	inLoop bool
+}
+
+// chanLiteral: the contents of a channel that is made, filled and closed
+// before it is handed out — whatever the spelling: newClosedBufCh(a, b),
+// make + sends + `defer close`, make + sends + close before the return, or a
+// module helper doing one of these with its own parameters (the elements are
+// then the call's arguments). ok=false: not such a channel (not closed on
+// the way out, made elsewhere, …).
+func chanLiteral(fn *ssa.Function, v ssa.Value, depth int) ([]chanElem, bool) {
 	v = an.Unwrap(v)
-	if an.IsNilConst(v) {
+	if an.IsNilConst(v) || depth > 2 {
 		return nil, false
 	}
 	if call, ok := v.(*ssa.Call); ok {
 		name := an.CalleeName(&call.Call)
-		if strings.HasSuffix(name, "mocrelay.newClosedBufCh") || strings.HasSuffix(name, "mocrelay.newBufCh") {
-			return an.VariadicElems(call.Call.Args[0])
-		}
-		return nil, false
-	}
-	if mc, ok := v.(*ssa.MakeChan); ok {
-		var sends []*ssa.Send
-		closed := false
-		an.Instrs(fn, func(in ssa.Instruction) {
-			switch x := in.(type) {
-			case *ssa.Send:
-				if x.Chan == ssa.Value(mc) {
-					sends = append(sends, x)
-				}
-			case *ssa.Defer:
-				if b, ok := x.Call.Value.(*ssa.Builtin); ok && b.Name() == "close" && x.Call.Args[0] == ssa.Value(mc) {
-					closed = true
-				}
-			case *ssa.Call:
-				if b, ok := x.Call.Value.(*ssa.Builtin); ok && b.Name() == "close" && x.Call.Args[0] == ssa.Value(mc) {
-					closed = true
-				}
+		if strings.HasSuffix(name, "mocrelay.newClosedBufCh") {
+			elems, ok := an.VariadicElems(call.Call.Args[0])
+			var out []chanElem
+			for _, e := range elems {
+				out = append(out, chanElem{val: e})
 			}
-		})
-		if !closed {
+			return out, ok
+		}
+		g := an.StaticCallee(&call.Call)
+		if g == nil || len(g.Blocks) == 0 || g.Pkg == nil || !strings.HasPrefix(g.Pkg.Pkg.Path(), an.ModulePrefix) || len(g.Params) != len(call.Call.Args) {
 			return nil, false
 		}
-		var out []ssa.Value
-		for _, s := range sends {
-			if an.InLoop(s.Block()) {
+		var out []chanElem
+		first := true
+		for _, rb := range an.ReturnBlocks(g) {
+			rv := an.ReturnValues(an.LastInstr(rb).(*ssa.Return))
+			if len(rv) == 0 {
 				return nil, false
 			}
-			out = append(out, s.X)
+			elems, ok := chanLiteral(g, rv[0], depth+1)
+			if !ok || (!first && len(elems) != len(out)) {
+				return nil, false
+			}
+			first = false
+			out = out[:0]
+			for _, e := range elems {
+				// a parameter of the helper is the caller's argument
+				if par, isPar := an.Unwrap(e.val).(*ssa.Parameter); isPar {
+					for i, gp := range g.Params {
+						if gp == par {
+							e.val = call.Call.Args[i]
+						}
+					}
+				}
+				out = append(out, e)
+			}
 		}
-		return out, true
+		return out, !first
 	}
-	return nil, false
+	mc, ok := v.(*ssa.MakeChan)
+	if !ok || mc.Parent() != fn {
+		return nil, false
+	}
+	var sends []*ssa.Send
+	deferred := false
+	var closes []*ssa.Call
+	an.Instrs(fn, func(in ssa.Instruction) {
+		switch x := in.(type) {
+		case *ssa.Send:
+			if an.Unwrap(x.Chan) == ssa.Value(mc) {
+				sends = append(sends, x)
+			}
+		case *ssa.Defer:
+			if b, ok := x.Call.Value.(*ssa.Builtin); ok && b.Name() == "close" && an.Unwrap(x.Call.Args[0]) == ssa.Value(mc) {
+				deferred = true
+			}
+		case *ssa.Call:
+			if b, ok := x.Call.Value.(*ssa.Builtin); ok && b.Name() == "close" && an.Unwrap(x.Call.Args[0]) == ssa.Value(mc) {
+				closes = append(closes, x)
+			}
+		}
+	})
+	if !deferred {
+		// closed explicitly: on every way to a return that hands the channel out
+		for _, rb := range an.ReturnBlocks(fn) {
+			hands := false
+			for _, rv := range an.ReturnValues(an.LastInstr(rb).(*ssa.Return)) {
+				if an.Unwrap(rv) == ssa.Value(mc) {
+					hands = true
+				}
+			}
+			if !hands {
+				continue
+			}
+			dom := false
+			for _, cl := range closes {
+				if cl.Block() == rb || cl.Block().Dominates(rb) {
+					dom = true
+				}
+			}
+			if !dom {
+				return nil, false
+			}
+		}
+		if len(closes) == 0 {
+			return nil, false
+		}
+	}
+	sort.SliceStable(sends, func(i, j int) bool { return before(sends[i], sends[j]) })
+	var out []chanElem
+	for _, sd := range sends {
+		out = append(out, chanElem{val: sd.X, inLoop: an.InLoop(sd.Block())})
+	}
+	return out, true
+}
+
+// chanContents: the values a returned reply channel carries, in order (no
+// element sent in a loop).
+func chanContents(fn *ssa.Function, v ssa.Value) ([]ssa.Value, bool) {
+	elems, ok := chanLiteral(fn, v, 0)
+	if !ok {
+		return nil, false
+	}
+	var out []ssa.Value
+	for _, e := range elems {
+		if e.inLoop {
+			return nil, false
+		}
+		out = append(out, e.val)
+	}
+	return out, true
 }
 
 type mwReturn struct {
